@@ -138,9 +138,28 @@ def pickler_at_submit(args):
                 time.sleep(gap)
             set_loky_pickler(later)
             out.append([at_submit, later, gap, f.result(timeout=20)])
+    # ... and it is the pickler the RESULT travels with: a lambda built in the worker comes
+    # back under cloudpickle and cannot be sent under plain pickle; workers whose own default
+    # (LOKY_PICKLER in their environment) differs from the one of the submission included
+    from vf.real.helpers import make_lambda
+    results = []
+    for worker_default in (None, "pickle", "cloudpickle"):
+        e2 = ProcessPoolExecutor(1, env={"LOKY_PICKLER": worker_default} if worker_default else None)
+        e2.submit(abs, -1).result(timeout=20)
+        for at_submit in ("cloudpickle", "pickle", "cloudpickle", "pickle"):
+            set_loky_pickler(at_submit)
+            f = e2.submit(make_lambda, 3)
+            try:
+                r = f.result(timeout=20)
+                kind = "value" if r(4) == 7 else "wrong-value"
+            except BaseException as ex:     # noqa
+                kind = type(ex).__name__
+            results.append([worker_default, at_submit, kind])
+        set_loky_pickler(None)
+        e2.shutdown(wait=True)
     set_loky_pickler(None)
     e.shutdown(wait=True)
-    return dict(cases=out)
+    return dict(cases=out, results=results)
 
 
 SCENARIOS = dict(pickler_at_submit=pickler_at_submit, kill3=kill3, announce_then_die=announce_then_die, die_in_shutdown=die_in_shutdown)
